@@ -288,6 +288,16 @@ class Inventory:
                             "framesem: %d paths over L in {0}, {1}, [2,1023]" % sem["paths"], f.loc)
                 self.stats["sem"] = self.stats.get("sem", 0) + 1
                 return
+        if f.path == "next_msg_frame":
+            # decided by inductive abstract interpretation (scansem): every Assert terminator, index and slice operation is evaluated for a
+            # symbolic scan position under the loop invariant, and the position grows by one per iteration up to data.len() (termination)
+            import framing
+            sem = framing.scan_semantics(prog)
+            if sem["decided"] and not sem["problems"]:
+                self.res.ob("P-sem", "scan | every Assert terminator, index and slice operation of next_msg_frame is decided on every abstract path; "
+                                     "the loop terminates", True, "scansem: %d paths; %s" % (sem["paths"], sem["form"]), f.loc)
+                self.stats["sem"] = self.stats.get("sem", 0) + 1
+                return
         if any(callee_of(t_) == "tinyvec::ArrayVec::<A>::extend_from_slice" for b_, t_ in f.calls()):
             # bulk prefix copy into a fresh ArrayString: the idiom check establishes E >= 1 where E is decremented, E <= len(value) where it
             # indexes, E <= N where it is appended to the empty vector, termination of the decrement loop, and that the function contains no
